@@ -3598,6 +3598,9 @@ class ControlConnection(object):
 
     _uses_peers_v2 = True
 
+    # tokens (per host) the current token map was built from
+    _token_map_rows = None
+
     # for testing purposes
     _time = time
 
@@ -3988,9 +3991,10 @@ class ControlConnection(object):
                 self._cluster.remove_host(old_host)
 
         log.debug("[control connection] Finished fetching ring info")
-        if partitioner and should_rebuild_token_map:
+        if partitioner and (should_rebuild_token_map or token_map != self._token_map_rows):
             log.debug("[control connection] Rebuilding token map due to topology changes")
             self._cluster.metadata.rebuild_token_map(partitioner, token_map)
+            self._token_map_rows = token_map
 
     @staticmethod
     def _is_valid_peer(row):
